@@ -11,6 +11,8 @@ pub mod ef_grid;
 pub mod efcommon;
 #[cfg(feature = "c01")]
 pub mod c01;
+#[cfg(feature = "c02")]
+pub mod c02;
 #[cfg(feature = "c03")]
 pub mod c03;
 #[cfg(feature = "c04")]
@@ -23,12 +25,16 @@ pub mod c06;
 pub mod c09;
 #[cfg(feature = "c10")]
 pub mod c10;
+#[cfg(feature = "c11")]
+pub mod c11;
 #[cfg(feature = "c12")]
 pub mod c12;
 #[cfg(feature = "c13")]
 pub mod c13;
 #[cfg(feature = "c14")]
 pub mod c14;
+#[cfg(feature = "c19")]
+pub mod c19;
 
 /// One marker harness per cargo feature, so that the driver can tell which
 /// kani-metadata.json belongs to which feature set.
